@@ -426,6 +426,10 @@ def check_property(prop, tier):
     if merged["evaluations"] == 0:
         log("INCONCLUSIVE: no cases were evaluated")
         return 2
+    if merged["extra"].get("harness_errors", 0) > 0:
+        log("INCONCLUSIVE: %d case(s) could not be run because of trouble in the rig itself (see HARNESS-ERROR lines in %s)"
+            % (merged["extra"]["harness_errors"], os.path.join(WORK, "out", prop)))
+        return 2
     log("%s %s: held on %d cases (%d distinct non-trivial) in %.1fs" %
         (prop, tier, merged["evaluations"], len(merged["nt"]), wall))
     return 0
